@@ -180,7 +180,7 @@ pub struct Built {
 
 pub type Customize = dyn Fn(&[(String, X)], &mut Host, &Arc<Shared>);
 
-/// cfg keys: cache, fcache, default_ext, disable_ims, same_compress, handlers, vary, files, report, host
+/// cfg keys: cache, fcache, default_ext, disable_ims, same_compress, handlers, vary, files, report, host, default_host
 pub fn build_host(cfg: &X, customize: Option<&Customize>) -> Option<Built> {
     let kv = parse_kv(cfg)?;
     let mut ext = if flag(&kv, "default_ext", false) { Extensions::new() } else { Extensions::empty() };
@@ -269,7 +269,12 @@ pub fn build_host(cfg: &X, customize: Option<&Customize>) -> Option<Built> {
         .and_then(X::as_l)
         .map(|l| l.iter().filter_map(|x| x.as_b().map(|b| String::from_utf8_lossy(b).into_owned())).collect())
         .unwrap_or_default();
-    let hosts = HostCollection::builder().insert(host).build();
+    // `default_host`: the host is also the collection's default host (it answers whatever the Host header names)
+    let hosts = if flag(&kv, "default_host", false) {
+        HostCollection::builder().default(host).build()
+    } else {
+        HostCollection::builder().insert(host).build()
+    };
     let align = if flag(&kv, "align", false) { Some(get(&kv, "phase").and_then(X::as_n).unwrap_or(500) as u64) } else { None };
     Some(Built { t0: std::sync::atomic::AtomicU64::new(0), align, hosts, shared, report, dir, host_name })
 }
